@@ -55,6 +55,192 @@ def comps(n, mask):
     return [k for k in range(n) if mask >> k & 1]
 
 
+
+# ------------------------------------------------------------------ query family (C03)
+
+class _Rng:
+    def __init__(self, seed):
+        self.s = seed & 0xFFFFFFFFFFFFFFFF
+
+    def next(self):
+        self.s = (self.s + 0x9E3779B97F4A7C15) & 0xFFFFFFFFFFFFFFFF
+        z = self.s
+        z = ((z ^ (z >> 30)) * 0xBF58476D1CE4E5B9) & 0xFFFFFFFFFFFFFFFF
+        z = ((z ^ (z >> 27)) * 0x94D049BB133111EB) & 0xFFFFFFFFFFFFFFFF
+        return z ^ (z >> 31)
+
+    def below(self, n):
+        return self.next() % n if n > 0 else 0
+
+    def choice(self, xs):
+        return xs[self.below(len(xs))]
+
+
+def _gen_filter(rng, comps, depth=0):
+    r = rng.below(12)
+    if r < 4 or depth >= 2:
+        return ("n",) if r < 2 else ("h", rng.choice(comps))
+    if r < 6:
+        return ("!", _gen_filter(rng, comps, depth + 1))
+    if r < 8:
+        return ("&", _gen_filter(rng, comps, depth + 1), _gen_filter(rng, comps, depth + 1))
+    if r < 10:
+        return ("|", _gen_filter(rng, comps, depth + 1), _gen_filter(rng, comps, depth + 1))
+    # views used as a filter
+    k = rng.choice(["r", "m", "or", "om"])
+    return ("v", [(k, rng.choice(comps))])
+
+
+def query_family(n):
+    """Deterministic family of (views, filter): views = list of (kind, comp) with kind in r/m/or/om/id."""
+    rng = _Rng(0xC03 + n)
+    focus = list(range(n)) if n <= 6 else [0, 1, 3, 6, 7, 8, 9, 10, 12, 14, 15]
+    fam = [([], ("n",)), ([("id", -1)], ("n",)), ([("r", focus[0])], ("n",)),
+           ([("om", focus[2]), ("id", -1), ("r", focus[0])], ("!", ("h", focus[1]))),
+           ([("or", focus[1]), ("or", focus[2])], ("|", ("h", focus[0]), ("h", focus[3]))),
+           ([("m", focus[-1]), ("r", focus[-2])], ("n",))]
+    count = 40 if n <= 6 else 18
+    while len(fam) < count:
+        nv = rng.choice([0, 1, 1, 2, 2, 3, 3, 4])
+        pool = focus[:]
+        views = []
+        for _ in range(nv):
+            c = pool.pop(rng.below(len(pool)))
+            views.append((rng.choice(["r", "m", "or", "om"]), c))
+        if rng.below(3) == 0:
+            views.insert(rng.below(len(views) + 1), ("id", -1))
+        fam.append((views, _gen_filter(rng, focus)))
+    return fam
+
+
+def filter_text(f):
+    """serialisation read by the model driver"""
+    if f[0] == "n":
+        return "n"
+    if f[0] == "h":
+        return "h%d" % f[1]
+    if f[0] == "!":
+        return "!" + filter_text(f[1])
+    if f[0] in "&|":
+        return "%s(%s,%s)" % (f[0], filter_text(f[1]), filter_text(f[2]))
+    return "v[%s]" % views_text(f[1])
+
+
+def views_text(vs):
+    return ";".join("id" if k == "id" else "%s%d" % (k, c) for k, c in vs) or "-"
+
+
+def _view_ty(k, c, lt=""):
+    if k == "id":
+        return "entity::Identifier"
+    t = "C%d" % c
+    return {"r": "&%s%s" % (lt, t), "m": "&%smut %s" % (lt, t), "or": "Option<&%s%s>" % (lt, t),
+            "om": "Option<&%smut %s>" % (lt, t)}[k]
+
+
+def _views_ty(vs, lt=""):
+    return "Views!(%s)" % ", ".join(_view_ty(k, c, lt) for k, c in vs)
+
+
+def _filter_ty(f):
+    if f[0] == "n":
+        return "filter::None"
+    if f[0] == "h":
+        return "filter::Has<C%d>" % f[1]
+    if f[0] == "!":
+        return "filter::Not<%s>" % _filter_ty(f[1])
+    if f[0] == "&":
+        return "filter::And<%s, %s>" % (_filter_ty(f[1]), _filter_ty(f[2]))
+    if f[0] == "|":
+        return "filter::Or<%s, %s>" % (_filter_ty(f[1]), _filter_ty(f[2]))
+    (k, c), = f[1]
+    return _view_ty(k, c, "'static ")
+
+
+def _fmt_item(name, k):
+    if k == "id":
+        return "{ let p = brood_verif_harness::id_parts(%s); format!(\"{}:{}\", p.0, p.1) }" % name
+    if k in ("r", "m"):
+        return "format!(\"v{}\", %s.tok())" % name
+    return "match &%s { Some(x) => format!(\"s{}\", x.tok()), None => String::from(\"n\") }" % name
+
+
+def emit_queries(w, n):
+    fam = query_family(n)
+    w("pub const NQ: usize = %d;" % len(fam))
+    w("")
+    w("fn hint_flag(hints: &[(usize, Option<usize>)], total: usize) -> Option<String> {")
+    w("    for (j, (lo, hi)) in hints.iter().enumerate() {")
+    w("        let rem = total - j.min(total);")
+    w("        if *lo > rem || hi.map_or(false, |h| h < rem) { return Some(format!(\"size_hint({},{:?})-before-next-{}-with-{}-left\", lo, hi, j, rem)); }")
+    w("    }")
+    w("    None")
+    w("}")
+    w("")
+    w("/// Query k of the family: every result row in iteration order, and a flag if size_hint ever failed to bracket what was left.")
+    w("pub fn run_query(w: &mut W, k: usize) -> (Vec<String>, Option<String>) {")
+    w("    let mut rows = Vec::new();")
+    w("    let mut hints = Vec::new();")
+    w("    match k {")
+    for qi, (vs, f) in enumerate(fam):
+        names = ["x%d" % i for i in range(len(vs))]
+        pat = "result!(%s)" % ", ".join(names) if vs else "_"
+        items = ", ".join(_fmt_item(nm, k) for nm, (k, c) in zip(names, vs))
+        w("        %d => {" % qi)
+        w("            let mut it = w.query(Query::<%s, %s>::new()).iter;" % (_views_ty(vs), _filter_ty(f)))
+        w("            loop {")
+        w("                hints.push(it.size_hint());")
+        w("                match it.next() {")
+        w("                    Some(%s) => rows.push(vec![%s].join(\",\"))," % (pat, items) if vs else
+          "                    Some(_) => rows.push(String::new()),")
+        w("                    None => break,")
+        w("                }")
+        w("            }")
+        w("        }")
+    w("        _ => panic!(\"query {} is not in the family\", k),")
+    w("    }")
+    w("    let flag = hint_flag(&hints, rows.len());")
+    w("    (rows, flag)")
+    w("}")
+    w("")
+    w("/// The same query through World::entry(id).query(..).")
+    w("pub fn run_entry_query(w: &mut W, id: entity::Identifier, k: usize) -> Option<Option<String>> {")
+    w("    let mut e = w.entry(id)?;")
+    w("    Some(match k {")
+    for qi, (vs, f) in enumerate(fam):
+        names = ["x%d" % i for i in range(len(vs))]
+        pat = "result!(%s)" % ", ".join(names) if vs else "_"
+        items = ", ".join(_fmt_item(nm, k) for nm, (k, c) in zip(names, vs))
+        body = "vec![%s].join(\",\")" % items if vs else "String::new()"
+        w("        %d => e.query(Query::<%s, %s>::new()).map(|%s| %s)," % (qi, _views_ty(vs), _filter_ty(f), pat, body))
+    w("        _ => panic!(\"query {} is not in the family\", k),")
+    w("    })")
+    w("}")
+    w("")
+    w("/// Query k again, overwriting every component reached through a mutable view with `new(old + delta)`.")
+    w("pub fn run_query_write(w: &mut W, k: usize, delta: u64) -> usize {")
+    w("    let mut n = 0usize;")
+    w("    match k {")
+    for qi, (vs, f) in enumerate(fam):
+        names = ["x%d" % i for i in range(len(vs))]
+        pat = "result!(%s)" % ", ".join(names) if vs else "_"
+        stm = []
+        for nm, (k, c) in zip(names, vs):
+            if k == "m":
+                stm.append("{ let t = %s.tok(); *%s = C%d::new(t.wrapping_add(delta)); n += 1; }" % (nm, nm, c))
+            elif k == "om":
+                stm.append("if let Some(y) = %s { let t = y.tok(); *y = C%d::new(t.wrapping_add(delta)); n += 1; }" % (nm, c))
+        if not stm:
+            w("        %d => {}" % qi)
+            continue
+        w("        %d => { for %s in w.query(Query::<%s, %s>::new()).iter { %s } }"
+          % (qi, pat, _views_ty(vs), _filter_ty(f), " ".join(stm)))
+    w("        _ => panic!(\"query {} is not in the family\", k),")
+    w("    }")
+    w("    n")
+    w("}")
+
+
 def emit(n, masks, path, modname):
     out = []
     w = out.append
@@ -223,6 +409,8 @@ def emit(n, masks, path, modname):
     w("        _ => panic!(\"resource {} out of range\", i),")
     w("    }")
     w("}")
+    w("")
+    emit_queries(w, n)
     text = "\n".join(out) + "\n"
     old = open(path).read() if os.path.exists(path) else None
     if old != text:
